@@ -496,7 +496,13 @@ func (u *Unmarshaler) processAnonymousFieldOptional(fieldType reflect.Type, valu
 			return err
 		}
 
-		_, hasValue := getValue(m, fieldKey)
+		// 与 processNamedField 一致：用规范化后的键查找文档
+		canonicalKey := fieldKey
+		if u.opts.canonicalKey != nil {
+			canonicalKey = u.opts.canonicalKey(fieldKey)
+		}
+
+		_, hasValue := getValue(m, canonicalKey)
 		if hasValue {
 			if !filled {
 				filled = true
